@@ -124,6 +124,8 @@ type explorer struct {
 	CallValue func(call *ssa.Call, e *explorer, st *pstate, fr *frame) ([]aval, bool)
 	// StoreEvent may describe a store; skip=true: the store does not update cells.
 	StoreEvent func(s *ssa.Store, e *explorer, st *pstate, fr *frame) (desc string, ok bool, skip bool)
+	// ResolveInvoke may name the unique implementation of an interface call.
+	ResolveInvoke func(cc *ssa.CallCommon, e *explorer, st *pstate, fr *frame) *ssa.Function
 	// ValueHook may give the abstract value of any SSA value (map lookups, ...).
 	ValueHook func(v ssa.Value, e *explorer, st *pstate, fr *frame) (aval, bool)
 	MaxDepth   int
@@ -300,11 +302,18 @@ func (e *explorer) execBlock(st *pstate, fr *frame, b, prev *ssa.BasicBlock, idx
 			}
 			call, _ := x.(*ssa.Call)
 			g := staticCallee(cc)
+			actuals := cc.Args
+			if g == nil && cc.IsInvoke() && e.ResolveInvoke != nil && !noInline {
+				if h := e.ResolveInvoke(cc, e, st, fr); h != nil {
+					g = h
+					actuals = append([]ssa.Value{cc.Value}, cc.Args...)
+				}
+			}
 			if !noInline && g != nil && g.Blocks != nil && fr.depth < e.MaxDepth && e.Inline != nil && e.Inline(g) && !e.recursing(fr, g) {
 				nfr := newFrame(g, fr)
 				for pi, p := range g.Params {
-					if pi < len(cc.Args) {
-						nfr.params[p] = e.eval(cc.Args[pi], st, fr)
+					if pi < len(actuals) {
+						nfr.params[p] = e.eval(actuals[pi], st, fr)
 					}
 				}
 				rest := i + 1
